@@ -4,6 +4,10 @@
 // This file contains comments only and is compiled only under the build tag "verif".
 package storage
 
+// Named modifies sets (macros, expanded where @name is used; defined first).
+//@ spec modset treeState = all(btreeNode.offsets), all(btreeNode.leafCells), all(btreeNode.internalCells), all(btreeNode.rightOffset), all(btreeNode.dirty), all(btreeNode.lastLSN), all(btreeNode.hasRSib), all(btreeNode.hasLSib), all(btreeNode.rSibFileOffset), all(btreeNode.lSibFileOffset), all(btreeNode.fileOffset), all(leafCell.valueBytes), all(leafCell.valueSize), all(leafCell.pg), all(leafCell.deleted), allelems(uint16), allelems(*leafCell), allelems(*internalCell)
+//@ spec modset cacheState = listLen, listAt, listPos, listOf, all(cacheEntry.val), cachemaps(0)
+
 //@ owned btreeNode.offsets, btreeNode.leafCells, btreeNode.internalCells
 //@ spec const maxValue = 400
 //@ spec const maxLeaf = 9
@@ -335,11 +339,15 @@ package storage
 
 // ---- node object invariant (re-established by every mutator, assumed for every page obtained from the store) ----
 
-//@ spec pred leafOK(n *btreeNode) { n.isLeaf && slotsOK(n) && sortedKeys(n) && identity(n) && sizesOK(n) &&
-//@        cnt(n) < maxLeaf && len(n.leafCells) < 65535 &&
+// leafAt(off): the page stored at file offset off is a leaf. Pages never change kind and offsets are never reused, so this is a
+// state-independent (abstract) function; the trusted contract of fetch ties it to the pages it returns.
+//@ spec abstract leafAt(off uint64)
+//@ spec pred leafShape(n *btreeNode) { n.isLeaf && slotsOK(n) && sortedKeys(n) && identity(n) && cnt(n) < maxLeaf && len(n.leafCells) < 65535 &&
+//@        (n.hasRSib ==> leafAt(n.rSibFileOffset)) }
+//@ spec pred leafOK(n *btreeNode) { leafShape(n) && sizesOK(n) &&
 //@        (forall i int :: 0 <= i && i < cnt(n) ==> len(lc(n,i).valueBytes) <= maxValue) }
 //@ spec pred intOK(n *btreeNode) { !n.isLeaf && slotsOK(n) && sortedKeys(n) && identity(n) &&
-//@        cnt(n) < maxInternal && len(n.internalCells) < 65535 }
+//@        1 <= cnt(n) && cnt(n) < maxInternal && len(n.internalCells) < 65535 }
 //@ spec pred nodeOK(n *btreeNode) { n != nil && (n.isLeaf ? leafOK(n) : intOK(n)) }
 
 //@ func (f *fileStore) fetch(offset uint64) (*btreeNode, error)
@@ -350,7 +358,7 @@ package storage
 //@   modifies listLen(f.cache.list), listAt(f.cache.list), listPos, listOf, mapof(f.cache.cache), all(cacheEntry.val)
 //@   ensures cacheOK(f)
 //@   ensures err != nil ==> result0 == nil
-//@   ensures err == nil ==> nodeOK(result0) && result0.fileOffset == offset && cached(f, result0)
+//@   ensures err == nil ==> nodeOK(result0) && result0.fileOffset == offset && cached(f, result0) && result0.isLeaf == leafAt(offset)
 
 //@ spec func fsOf(b *BTree) *fileStore { b.store.(*fileStore) }
 //@ spec pred btOK(b *BTree) { typeof(b.store) == typ(*fileStore) && fsOf(b) != nil && cacheOK(fsOf(b)) }
@@ -549,22 +557,25 @@ package storage
 //@   ensures result0 != nil && fresh(result0)
 
 //@ func (b *BTree) scanRight(f func(kv *leafCell) (ScanAction, error)) error
-//@   props C01 C02 C11
+//@   props C01 C02 C11 C13
 //@   requires fsLocked(fsOf(b))
-//@   trusted
 //@   requires btOK(b)
-//@   callback f(kv) guarantees kv != nil && kv.pg != nil && leafOK(kv.pg) && !kv.deleted &&
-//@              (exists p int :: 0 <= p && p < cnt(kv.pg) && lc(kv.pg, p) == kv) && cached(fsOf(b), kv.pg)
+//@   callback f(kv) guarantees kv != nil && kv.pg != nil && !kv.deleted
+//@   callback f(kv) guarantees leafShape(kv.pg)
+//@   callback f(kv) guarantees[pos; C01; witness p=curindex] exists p int :: 0 <= p && p < cnt(kv.pg) && lc(kv.pg, p) == kv
 //@   callback f preserves all(btreeNode.offsets), all(btreeNode.leafCells), all(btreeNode.internalCells), all(btreeNode.isLeaf),
 //@              all(btreeNode.hasRSib), all(btreeNode.rSibFileOffset), all(btreeNode.fileOffset), all(leafCell.key), all(leafCell.deleted),
-//@              allelems(uint16), allelems(*leafCell), allelems(*internalCell)
+//@              allelems(uint16), allelems(*leafCell), allelems(*internalCell),
+//@              @cacheState, all(fileStore.cache), all(fileStore.autoFlushCache), all(LRUCache.list), all(LRUCache.cache), all(LRUCache.maxNodes),
+//@              all(list.Element.Value), all(cacheEntry.key), all(BTree.store), txn
 //@   modifies all(leafCell.pg), listLen(fsOf(b).cache.list), listAt(fsOf(b).cache.list), listPos, listOf, mapof(fsOf(b).cache.cache), all(cacheEntry.val)
 //@   ensures btOK(b)
+//@   loop 1 invariant btOK(b) && fsLocked(fsOf(b)) && nodeOK(pg)
+//@   loop 2 invariant btOK(b) && fsLocked(fsOf(b)) && pg != nil && leafShape(pg)
+//@   loop 3 invariant btOK(b) && fsLocked(fsOf(b)) && pg != nil && leafShape(pg)
 
 // ---- relation service: LSN protocol (C02), error frames (C14), statement bracket (C13) ----
 
-//@ spec modset treeState = all(btreeNode.offsets), all(btreeNode.leafCells), all(btreeNode.internalCells), all(btreeNode.rightOffset), all(btreeNode.dirty), all(btreeNode.lastLSN), all(btreeNode.hasRSib), all(btreeNode.hasLSib), all(btreeNode.rSibFileOffset), all(btreeNode.lSibFileOffset), all(btreeNode.fileOffset), all(leafCell.valueBytes), all(leafCell.valueSize), all(leafCell.pg), all(leafCell.deleted), allelems(uint16), allelems(*leafCell), allelems(*internalCell)
-//@ spec modset cacheState = listLen, listAt, listPos, listOf, all(cacheEntry.val), cachemaps(0)
 //@ spec pred rsOK(rs *RelationService) { rs.fs != nil && cacheOK(rs.fs) && rs.wal != nil }
 //@ spec func lsn(rs *RelationService) uint64 { rs.fs._nextLSN }
 
@@ -586,13 +597,16 @@ package storage
 //@   ensures[L1; C02] result1 == old(fsOf(b)._nextLSN) && fsOf(b)._nextLSN == uint64(old(fsOf(b)._nextLSN) + 1)
 
 //@ func (b *BTree) findCell(key uint32) (*leafCell, error)
-//@   props C01 C11
+//@   props C01 C11 C13
 //@   requires fsLocked(fsOf(b))
-//@   trusted
 //@   requires btOK(b)
-//@   modifies all(leafCell.pg), @cacheState, storeState
-//@   ensures btOK(b)
-//@   ensures err == nil && result0 != nil ==> result0.key == key && !result0.deleted && result0.pg != nil && leafOK(result0.pg)
+//@   modifies all(leafCell.pg), @cacheState
+//@   ensures[bt] btOK(b)
+//@   ensures[found; C01] err == nil && result0 != nil ==> result0.key == key && !result0.deleted && result0.pg != nil && leafOK(result0.pg)
+//@   ensures[pos; C01; witness p=offset] err == nil && result0 != nil ==> exists p int :: 0 <= p && p < cnt(result0.pg) && lc(result0.pg, p) == result0
+//@   ensures[err.nil] err != nil ==> result0 == nil
+//@   loop 1 invariant btOK(b) && fsLocked(fsOf(b)) && nodeOK(pg)
+//@   loop 2 invariant btOK(b) && fsLocked(fsOf(b)) && nodeOK(pg) && !pg.isLeaf && 0 <= i && i <= cnt(pg)
 
 //@ func (f *fileStore) lockShared()
 //@   props C13
@@ -666,7 +680,7 @@ package storage
 //@ func (rs *RelationService) Update$1(cell *leafCell) (ScanAction, error)
 //@   props C01 C02 C04 C14 C13
 //@   requires fsLocked(rs.fs)
-//@   requires cell != nil && cell.pg != nil && leafOK(cell.pg)
+//@   requires cell != nil && cell.pg != nil && leafShape(cell.pg)
 //@   requires rs != nil && rs.fs != nil && r != nil
 //@   requires len(cols) <= len(updateSrc)
 //@   assume[lsn-no-wrap] rs.fs._nextLSN < 18446744073709551615
@@ -693,7 +707,7 @@ package storage
 //@ func (rs *RelationService) updatePageTable$1(cell *leafCell) (ScanAction, error)
 //@   props C01 C02 C04 C14 C13
 //@   requires fsLocked(rs.fs)
-//@   requires cell != nil && cell.pg != nil && leafOK(cell.pg)
+//@   requires cell != nil && cell.pg != nil && leafShape(cell.pg)
 //@   requires rs != nil && rs.fs != nil
 //@   assume[lsn-no-wrap] rs.fs._nextLSN < 18446744073709551615
 //@   invariant[L1; C02] rs.fs._nextLSN - len(walLogs) == old(rs.fs._nextLSN - len(walLogs))
